@@ -7,9 +7,17 @@ from sklearn.utils.validation import check_X_y, check_random_state
 from .exceptions import PreprocessorError, NonPSDError
 from sklearn.discriminant_analysis import LinearDiscriminantAnalysis
 from scipy.linalg import pinvh, eigh
+import inspect
 import sys
 import time
 import warnings
+
+# scikit-learn renamed `force_all_finite` to `ensure_all_finite` (1.6) and
+# removed the old name (1.8): use whichever name the installed version has
+if 'ensure_all_finite' in inspect.signature(check_array).parameters:
+  _ALL_FINITE = 'ensure_all_finite'
+else:
+  _ALL_FINITE = 'force_all_finite'
 
 # hack around lack of axis kwarg in older numpy versions
 try:
@@ -108,26 +116,28 @@ def check_input(input_data, y=None, preprocessor=None,
 
   args_for_sk_checks = dict(accept_sparse=accept_sparse,
                             dtype=dtype, order=order,
-                            copy=copy, force_all_finite=force_all_finite,
+                            copy=copy,
                             ensure_min_samples=ensure_min_samples,
                             ensure_min_features=ensure_min_features,
                             estimator=estimator)
+  args_for_sk_checks[_ALL_FINITE] = force_all_finite
 
   # We need to convert input_data into a numpy.ndarray if possible, before
   # any further checks or conversions, and deal with y if needed. Therefore
   # we use check_array/check_X_y with fixed permissive arguments.
   if y is None:
     input_data = check_array(input_data, ensure_2d=False, allow_nd=True,
-                             copy=False, force_all_finite=False,
+                             copy=False,
                              accept_sparse=True, dtype=None,
-                             ensure_min_features=0, ensure_min_samples=0)
+                             ensure_min_features=0, ensure_min_samples=0,
+                             **{_ALL_FINITE: False})
   else:
     input_data, y = check_X_y(input_data, y, ensure_2d=False, allow_nd=True,
-                              copy=False, force_all_finite=False,
+                              copy=False,
                               accept_sparse=True, dtype=None,
                               ensure_min_features=0, ensure_min_samples=0,
                               multi_output=multi_output,
-                              y_numeric=y_numeric)
+                              y_numeric=y_numeric, **{_ALL_FINITE: False})
 
   if type_of_inputs == 'classic':
     input_data = check_input_classic(input_data, context, preprocessor,
@@ -319,10 +329,9 @@ class ArrayIndexer:
     # array object which can be indexed by another numpy array object.
     X = check_array(X,
                     accept_sparse=True, dtype=None,
-                    force_all_finite=False,
                     ensure_2d=False, allow_nd=True,
                     ensure_min_samples=0, ensure_min_features=0,
-                    estimator=None)
+                    estimator=None, **{_ALL_FINITE: False})
     self.X = X
 
   def __call__(self, indices):
